@@ -30,9 +30,12 @@ def gen(rng, n):
         nodes += [['d', vol + '/tdir2', 0o755], ['f', vol + '/tdir2/in2', 'in2']]
         where = rng.choice([lay.home, lay.home + '/sub', vol, vol + '/sub'])
         nodes.append(['d', where, 0o755])
-        tk = rng.choice(['file', 'dir', 'dangling', 'link', 'dir_other_vol'])
+        tk = rng.choice(['file', 'dir', 'dangling', 'link', 'dir_other_vol', 'above'])
+        # 'above': the link points to a directory that CONTAINS the trash directory the link goes to (the home directory, the volume's
+        # top directory, the root, '..'): only somebody who follows the link could think the entry contains its own destination
         target = {'file': lay.home + '/tfile', 'dir': lay.home + '/tdir', 'dangling': 'no/where', 'link': 'l2',
-                  'dir_other_vol': vol + '/tdir2'}[tk]
+                  'dir_other_vol': vol + '/tdir2',
+                  'above': rng.choice([lay.home, '/', vol, '..', '../..'])}[tk]
         if tk in ('file', 'dir') and rng.random() < 0.4:
             target = os.path.relpath(target, where)
         name = rng.choice(['lnk', 'l n', 'l%41', 'é'])
